@@ -28,4 +28,4 @@ def run(ctx):
         # every factory and every synchro mode appears; the seed rotates the rest
         k = ctx.seed % 3
         variants = [v for j, v in enumerate(variants) if v[0].endswith("/1/futex") or j % 3 == k]
-    kernel_diff.run(ctx, variants, ref, 40, 600, "C02: variants = contexts/factory x nthreads x synchro.")
+    kernel_diff.run(ctx, variants, ref, 40, 120, "C02: variants = contexts/factory x nthreads x synchro.")
